@@ -174,6 +174,20 @@ Proof.
   rewrite (base_redirect cfg s Er). apply opt_is_some.
 Qed.
 
+(* ---------- rp.AuthURL without options, at any time ---------- *)
+Lemma probe_is_base cfg : probe_params cfg = base_params (plain_cfg cfg) probe_state.
+Proof. reflexivity. Qed.
+
+Lemma probe_ok cfg : url_core_ok cfg probe_state (c_auth cfg) (probe_params cfg) = true.
+Proof.
+  rewrite probe_is_base. unfold url_core_ok.
+  change (c_client cfg) with (c_client (plain_cfg cfg)).
+  change (c_redirect cfg) with (c_redirect (plain_cfg cfg)).
+  change (c_scopes cfg) with (c_scopes (plain_cfg cfg)).
+  rewrite base_response_type, base_client, base_state, !opt_is_some, !String.eqb_refl.
+  rewrite redirect_check, scope_check. reflexivity.
+Qed.
+
 (* ---------- the login redirect ---------- *)
 Section Proofs.
   Variable H : string -> string.
@@ -268,8 +282,9 @@ Section Proofs.
     c_pkce cfg = true -> op_honest cfg o = true -> Inv j lg ->
     Inv (jar_after j o (respond H cfg j o)) (push_login (respond H cfg j o) lg).
   Proof.
-    intros Hp Hh HI. destruct o as [s0 v0|s0|q ok ap|n c|n].
+    intros Hp Hh HI. destruct o as [s0 v0|s0|q ok ap|n c|n|l].
     2:{ exact HI. }
+    5:{ exact HI. }
     - cbn [respond]. unfold start_login, login_cookies. rewrite Hp.
       cbn [jar_after ev_cookies push_login jar_apply fold_left jar_apply1 fst snd state_cookie pkce_cookie].
       intros s v Hs Hv. rewrite !check_set in Hs, Hv.
@@ -319,7 +334,7 @@ Section Proofs.
     Forall is_redirect lg -> Forall (fun t => Forall is_redirect (t_logins t)) (trace H cfg j lg ops).
   Proof.
     induction ops as [|o ops IH]; intros j lg Hl; cbn [trace]; constructor; [exact Hl|].
-    apply IH. destruct o as [s v|s|q ok ap|n c|n]; cbn [respond push_login]; auto.
+    apply IH. destruct o as [s v|s|q ok ap|n c|n|l]; cbn [respond push_login]; auto.
     - unfold start_login. cbn [push_login]. constructor; [|exact Hl]. exists s, v. reflexivity.
     - destruct (callback_shape j q ok) as (h & r & cs & E & _). now rewrite E.
   Qed.
@@ -368,10 +383,11 @@ Section Proofs.
   Proof.
     induction ops as [|o ops IH]; intros j lg HI Hh; [reflexivity|].
     cbn [trace map snd spec_run]. apply andb_true_iff; split.
-    - destruct o as [s v|s|q ok ap|n c|n]; cbn [respond spec_step]; try reflexivity.
+    - destruct o as [s v|s|q ok ap|n c|n|l]; cbn [respond spec_step]; try reflexivity.
       + apply auth_ok_model.
       + pose proof (cb_ok_model hon j lg q ok HI) as Hc.
         destruct (callback cfg j q ok); try contradiction. exact Hc.
+      + apply probe_ok.
     - apply IH.
       + intros Hn Hp. specialize (Hh Hn). cbn in Hh. apply andb_true_iff in Hh as [H1 _].
         apply inv_step; auto.
@@ -587,3 +603,45 @@ Lemma spec_rejects_fallback :
   /\ spec (Inp fallback_setup [("va", "ha")] [] [OStart "a" "va"])
           (model (Inp fallback_setup [("va", "ha")] [] [OStart "a" "va"])) = true.
 Proof. vm_compute. repeat split. Qed.
+
+(* ---------- other API calls on the same RP value ---------- *)
+Definition is_api (o : op) : bool := match o with OApi _ => true | _ => false end.
+Definition is_probe (e : event) : bool := match e with EvProbe _ _ => true | _ => false end.
+
+Lemma api_inert_trace : forall H cfg ops j lg,
+  map (fun t => snd t) (trace H cfg j lg (filter (fun o => negb (is_api o)) ops))
+  = filter (fun e => negb (is_probe e)) (map (fun t => snd t) (trace H cfg j lg ops)).
+Proof.
+  intros H cfg ops. induction ops as [|o ops IH]; intros j lg; [reflexivity|].
+  destruct o as [s v|s|q ok ap|n c|n|l]; cbn [filter is_api negb trace map snd respond].
+  - unfold start_login. cbn [is_probe negb filter]. f_equal. apply IH.
+  - cbn [is_probe negb filter]. f_equal. apply IH.
+  - destruct (callback_shape cfg j q ok) as (h & r & cs & E & _). rewrite E.
+    cbn [is_probe negb filter]. f_equal. apply IH.
+  - cbn [is_probe negb filter]. f_equal. apply IH.
+  - cbn [is_probe negb filter]. f_equal. apply IH.
+  - cbn [is_probe negb filter jar_after push_login]. apply IH.
+Qed.
+
+Lemma api_inert : forall H cfg j ops,
+  run H cfg j (filter (fun o => negb (is_api o)) ops)
+  = filter (fun e => negb (is_probe e)) (run H cfg j ops).
+Proof. intros. unfold run. apply api_inert_trace. Qed.
+
+Lemma probe_url : forall H cfg j l,
+  exists ps, respond H cfg j (OApi l) = EvProbe (c_auth cfg) ps
+  /\ plookup "response_type" ps = Some "code"
+  /\ plookup "client_id" ps = Some (c_client cfg)
+  /\ (c_redirect cfg <> "" -> plookup "redirect_uri" ps = Some (c_redirect cfg))
+  /\ (c_scopes cfg <> [] -> plookup "scope" ps = Some (String.concat " " (c_scopes cfg)))
+  /\ form ps "state" = probe_state.
+Proof.
+  intros H cfg j l. exists (probe_params cfg). split; [reflexivity|]. rewrite probe_is_base.
+  repeat split.
+  - apply base_response_type.
+  - apply (base_client (plain_cfg cfg)).
+  - intro Hr. apply (base_redirect (plain_cfg cfg)). cbn [plain_cfg c_redirect].
+    destruct (is_empty (c_redirect cfg)) eqn:E; [|reflexivity]. apply is_empty_eq in E. contradiction.
+  - apply (base_scope (plain_cfg cfg)).
+  - apply base_state.
+Qed.
